@@ -15,7 +15,7 @@ from .values import (ContractOutOfDate, FuncV, GenV, OutsideSubset, PathEnd,
 class LoopAnnot(object):
     def __init__(self, invariant=None, variant=None, types=None, keep=None,
                  havoc_ghost=None, abstract=False, on_element=None,
-                 element=None, at_iteration_end=None):
+                 element=None, at_iteration_end=None, mutates=None):
         if invariant is None:
             invariant = lambda *a: []
         self.invariant = invariant
@@ -27,6 +27,10 @@ class LoopAnnot(object):
         self.on_element = on_element
         self.element = element
         self.at_iteration_end = at_iteration_end
+        # writes of the body to objects that exist before the loop which the
+        # annotation abstracts itself (havoc_ghost); any other such write
+        # makes the cut unsound and is rejected
+        self.mutates = set(mutates or ())
         self.used = False
 
 
@@ -166,6 +170,7 @@ class Session(object):
         def run(ctx):
             interp.ctx = ctx
             interp.call_depth = 0
+            interp.loop_frames = []
             V = View(interp)
             try:
                 body(V)
